@@ -9,7 +9,7 @@
     tuples of arrays per shot copy / measurement / parameter) and calls compute_vjp_single / multi, compute_jvp_single / multi
     directly and batch_vjp / batch_jvp on tapes whose gradient transform returns the integer Jacobian, and compares exactly.
     classical_jacobian: ClassJacGen.tla enumerates affine integer pre-processing programs, TLC computes the Jacobian by exact
-    differences; the driver builds the QNode of each program and compares (autograd; jax and torch on a subset).
+    differences; the driver builds the QNode of each program and compares (autograd; thorough: also jax and torch on a subset).
 """
 import json
 import random
@@ -133,7 +133,7 @@ def cmp_jvp_copy(sh, out, jvc):
     if M == 1:
         return same(out, jvc[0], (sh["meas"][0],) if sh["meas"][0] else ())
     if not isinstance(out, (tuple, list)) or len(out) != M:
-        return f"{type(out).__name__} of length {len(out) if hasattr(out, '__len__') else '?'} instead of a tuple of {M} results"
+        return f"{type(out).__name__} of shape {np.shape(out) if not isinstance(out, (tuple, list)) else (len(out),)} instead of a tuple of {M} results"
     for m in range(M):
         why = same(out[m], jvc[m], (sh["meas"][m],) if sh["meas"][m] else ())
         if why:
@@ -447,6 +447,7 @@ def run(tier, seed):
     if cj.invariant_violated:
         raise lib.MachineryError(f"ClassJacGen violates {cj.invariant_violated} (oracle error)\n" + cj.out[-2000:])
     lib.require_ok(cj, "ClassJacGen")
+    t_cj_tlc = time.time() - t1
     progs = sorted(cj.json_lines, key=lambda r: json.dumps(r, sort_keys=True))
     if len(progs) < 200:
         raise lib.MachineryError(f"only {len(progs)} pre-processing programs")
@@ -454,7 +455,7 @@ def run(tier, seed):
     for pi, r in enumerate(progs):
         n, prog, w0, jac = r["n"], r["prog"], r["w0"], r["jac"]
         form = "vector" if pi % 2 else "scalars"
-        ifaces = ["autograd"] + (["jax"] if pi % 9 == 0 else []) + (["torch"] if pi % 9 == 4 else [])
+        ifaces = ["autograd"] if quick else ["autograd"] + (["jax"] if pi % 5 == 0 else []) + (["torch"] if pi % 5 == 3 else [])
         for iface in ifaces:
             if iface == "autograd":
                 if form == "vector":
@@ -502,7 +503,8 @@ def run(tier, seed):
            "batches_of_several_tapes": n_batches,
            "classical_jacobian": {"programs": len(progs), "calls": cj_calls, "by_interface": cj_by_iface},
            "negative_controls_rejected": rejected, "model_drift": 0,
-           "wall_s": {"tlc_generator": round(t_gen, 1), "products": round(t_prod, 1), "classical_jacobian": round(t_cj, 1)}}
+           "wall_s": {"tlc_generator": round(t_gen, 1), "products": round(t_prod, 1), "classical_jacobian_tlc": round(t_cj_tlc, 1),
+                      "classical_jacobian_calls": round(t_cj - t_cj_tlc, 1)}}
     return CheckResult(coverage=cov, violations=viol, assumptions=[
         "all tensors have small integer entries, so every comparison is exact (tolerance 1e-9 on float64)",
         "batch_vjp / batch_jvp are driven with a gradient transform that returns the given integer Jacobian in PennyLane's nested "
